@@ -1,70 +1,7 @@
 // verifdrv executes scenarios against the real utls library (built from /repo with -tags verif)
-// and logs what it observed as ndjson. It contains no expected values: TLC judges the log.
-//
-// usage: verifdrv <command> <in.json> <out.ndjson>
+// and logs what it observed as ndjson. usage: verifdrv <command> <in.json> <out.ndjson>
 package main
 
-import (
-	"encoding/json"
-	"fmt"
-	"os"
-	"sort"
-	"sync"
-)
+import "verif/harness/hlib"
 
-type Out struct {
-	mu  sync.Mutex
-	f   *os.File
-	enc *json.Encoder
-	n   int
-}
-
-// Emit writes one event. Safe for concurrent use; the order of concurrent events is the order of
-// the calls to Emit (callers that need a linearisation emit under their own lock).
-func (o *Out) Emit(v any) {
-	o.mu.Lock()
-	defer o.mu.Unlock()
-	o.n++
-	if err := o.enc.Encode(v); err != nil {
-		panic(err)
-	}
-}
-
-type command func(in []byte, out *Out) error
-
-var commands = map[string]command{}
-
-func register(name string, c command) { commands[name] = c }
-
-func main() {
-	if len(os.Args) != 4 {
-		names := []string{}
-		for n := range commands {
-			names = append(names, n)
-		}
-		sort.Strings(names)
-		fmt.Fprintf(os.Stderr, "usage: verifdrv <command> <in.json> <out.ndjson>\ncommands: %v\n", names)
-		os.Exit(64)
-	}
-	c, ok := commands[os.Args[1]]
-	if !ok {
-		fmt.Fprintf(os.Stderr, "unknown command %q\n", os.Args[1])
-		os.Exit(64)
-	}
-	in, err := os.ReadFile(os.Args[2])
-	if err != nil {
-		fmt.Fprintln(os.Stderr, err)
-		os.Exit(65)
-	}
-	f, err := os.Create(os.Args[3])
-	if err != nil {
-		fmt.Fprintln(os.Stderr, err)
-		os.Exit(65)
-	}
-	out := &Out{f: f, enc: json.NewEncoder(f)}
-	if err := c(in, out); err != nil {
-		fmt.Fprintln(os.Stderr, "verifdrv:", err)
-		os.Exit(3)
-	}
-	f.Close()
-}
+func main() { hlib.Main() }
